@@ -2564,10 +2564,12 @@ BD_Shape<T>::simplify_using_context_assign(const BD_Shape& y) {
   // (this subsumes the case when `y' is empty).
   y.shortest_path_closure_assign();
   if (x.contains(y)) {
+    // The intersection is `y' itself: it is empty iff `y' is empty
+    // (to be tested before modifying `x', which may be `y' itself).
+    const bool y_is_empty = y.marked_empty();
     BD_Shape<T> res(dim, UNIVERSE);
     x.m_swap(res);
-    // The intersection is `y' itself: it is empty iff `y' is empty.
-    return !y.marked_empty();
+    return !y_is_empty;
   }
 
   // Filter away the case where `x' is empty.
